@@ -4,7 +4,9 @@
 set -u
 ID="$1"; TIER="${2:-${VERIF_TIER:-quick}}"; SEED="${VERIF_SEED:-0}"
 export GOFLAGS=-mod=mod GOPROXY=off GOSUMDB=off GOTOOLCHAIN=local
-cd /verif || exit 2
+ROOT=$(cd "$(dirname "$0")/.." && pwd)   # /verif, or a snapshot of it (vp run)
+export VERIF_DIR="$ROOT"
+cd "$ROOT" || exit 2
 W=$(mktemp -d /tmp/vcheck-XXXXXX) || exit 2
 trap 'rm -rf "$W"' EXIT
 mkdir -p bin
@@ -28,14 +30,14 @@ if [ "$REPO" != /repo ]; then
   MODFLAG="-modfile=$W/alt.mod"
   export VERIF_EVIDENCE_DIR="${VERIF_EVIDENCE_DIR:-$W/evidence}"
 fi
-INSTR=$(./bin/instrument -repo "$REPO" -out "$W" -rules "$RULES" -rt /verif/rt 2>"$W/instr.err") || { echo "HARNESS-ERROR: instrumentation failed: $(cat "$W/instr.err")"; exit 2; }
+INSTR=$(./bin/instrument -repo "$REPO" -out "$W" -rules "$RULES" -rt "$ROOT/rt" 2>"$W/instr.err") || { echo "HARNESS-ERROR: instrumentation failed: $(cat "$W/instr.err")"; exit 2; }
 if ! go build $MODFLAG -tags verif -overlay "$W/overlay.json" -o "$W/vcheck" "$MAIN" 2>"$W/build.err"; then
   echo "HARNESS-ERROR: harness does not build against the current tree:"; head -30 "$W/build.err"; exit 2
 fi
 if [ "$ID" = C14 ] || [ "$ID" = C15 ]; then
   # secondary evidence: the same scenario shapes free-running on real goroutines / real sync under Go's race detector
   mkdir -p "$W/race"
-  ./bin/instrument -repo "$REPO" -out "$W/race" -rules r2 -rt /verif/rt >/dev/null 2>"$W/instr.err" || { echo "HARNESS-ERROR: instrumentation (race build) failed: $(cat "$W/instr.err")"; exit 2; }
+  ./bin/instrument -repo "$REPO" -out "$W/race" -rules r2 -rt "$ROOT/rt" >/dev/null 2>"$W/instr.err" || { echo "HARNESS-ERROR: instrumentation (race build) failed: $(cat "$W/instr.err")"; exit 2; }
   if ! go build $MODFLAG -race -tags verif -overlay "$W/race/overlay.json" -o "$W/vrace" "$MAIN" 2>"$W/build.err"; then
     echo "HARNESS-ERROR: -race harness does not build:"; head -20 "$W/build.err"; exit 2
   fi
